@@ -380,8 +380,36 @@ def run(ctx, chk, tier="quick"):
         t = cmp_.test
         l, r = t.left, t.comparators[0]
         # which side is the proposer: PREF[jump][storm] vs PREF[jump][matches[jump]]
+        def holder_lookup(v):
+            """MATCHES[rise] / MATCHES.get(rise[, default]) -> (table name, has default)"""
+            if isinstance(v, ast.Subscript) and isinstance(v.value, ast.Name):
+                return v.value.id
+            if isinstance(v, ast.Call) and isinstance(v.func, ast.Attribute) and v.func.attr == "get" and isinstance(v.func.value, ast.Name) and v.args:
+                return v.func.value.id
+            return None
+
         def is_current(x):
-            return isinstance(x, ast.Subscript) and isinstance(x.slice, ast.Subscript)
+            if not isinstance(x, ast.Subscript):
+                return False
+            if isinstance(x.slice, ast.Subscript):
+                return True
+            # PREF[rise][holder] with holder = MATCHES[rise] / MATCHES.get(rise)
+            if isinstance(x.slice, ast.Name):
+                dv = fflow.def_value(x.slice)
+                return dv is not None and holder_lookup(dv) is not None
+            return False
+        # the "is this rise already held" test that guards the comparison: membership or `is not None`, never truthiness
+        # (storms are identified by their start index, and 0 is a storm)
+        held = getattr(cmp_, "parent", None)
+        if isinstance(held, ast.If) and cmp_ in held.body:
+            ht = held.test
+            hv = fflow.def_value(ht) if isinstance(ht, ast.Name) else ht
+            if isinstance(ht, ast.Name) and hv is not None and holder_lookup(hv) is not None or (not isinstance(ht, ast.Name) and holder_lookup(ht) is not None and isinstance(ht, ast.Call)):
+                chk.ob("C02.O2", False, where_of(fsm, held),
+                       "`if %s:` with %s: whether the rise is held is decided by the truth value of the holding storm's id" % (ast.unparse(ht), ast.unparse(hv)[:40]),
+                       "a membership test (`rise in matches`) or a comparison with None",
+                       key="find_stable_matching|held-test",
+                       why="a storm that starts at index 0 is a falsy id: the rise it holds is treated as free, the next proposer takes it without comparison and storm 0 is never re-queued -- a blocking pair")
         if is_current(l) == is_current(r):
             chk.indeterminate("C02.O2", where_of(fsm, t), "cannot tell proposer from current partner in %s" % ast.unparse(t))
         else:
@@ -410,12 +438,23 @@ def run(ctx, chk, tier="quick"):
             for i, st in enumerate(body):
                 for x in ast.walk(st):
                     if isinstance(x, ast.Call) and isinstance(x.func, ast.Attribute) and x.func.attr in ("add", "append", "insert", "appendleft") \
-                            and x.args and isinstance(x.args[-1], ast.Subscript) and requeue is None:
+                            and x.args and requeue is None and (isinstance(x.args[-1], ast.Subscript) or
+                                                                (isinstance(x.args[-1], ast.Name) and fflow.def_value(x.args[-1]) is not None
+                                                                 and holder_lookup(fflow.def_value(x.args[-1])) is not None)):
                         requeue = (i, x)
                     if isinstance(x, ast.Assign) and isinstance(x.targets[0], ast.Subscript) and overwrite is None:
                         overwrite = (i, x)
             ok3 = requeue is not None and overwrite is not None and requeue[0] < overwrite[0]
-            same_key = ok3 and ast.unparse(requeue[1].args[-1]) == ast.unparse(overwrite[1].targets[0])
+            def _holder_key(v):
+                """(table, key text) of MATCHES[k] / MATCHES.get(k), through a name bound once to it"""
+                if isinstance(v, ast.Name):
+                    v = fflow.def_value(v)
+                if isinstance(v, ast.Subscript) and isinstance(v.value, ast.Name):
+                    return (v.value.id, ast.unparse(v.slice))
+                if isinstance(v, ast.Call) and isinstance(v.func, ast.Attribute) and v.func.attr == "get" and isinstance(v.func.value, ast.Name) and v.args:
+                    return (v.func.value.id, ast.unparse(v.args[0]))
+                return None
+            same_key = ok3 and _holder_key(requeue[1].args[-1]) is not None and _holder_key(requeue[1].args[-1]) == _holder_key(overwrite[1].targets[0])
             chk.ob("C02.O3", bool(ok3 and same_key), where_of(fsm, cmp_),
                    "on displacement: re-queue %s, overwrite %s" % (
                        ("`%s` (statement %d)" % (ast.unparse(requeue[1]), requeue[0])) if requeue else "MISSING",
